@@ -162,7 +162,10 @@ CHECKS = {
         "For ONE example, knapsack, there is more: a Coq transliteration of its DP model / relaxation / Dantzig rough bound / ranking (Knapsack.v) is proved to meet the premises of the solver theorem "
         "(incl. admissibility of the integer fractional bound for items sorted by ratio), the theorem is instantiated on it (kp_C01: clean flavours, no cache / dominance, i.e. NOT the configuration of the "
         "example's main), and the model is tied to the example's own source, compiled into the harness, by differential runs over decision prefixes (states, domains, costs, bounds, merges) including the "
-        "premise `sorted by ratio` evaluated on the order Knapsack::new computes. For the other eleven examples there is no Coq proof that their models are well formed: specification + differential test. "
+        "premise `sorted by ratio` evaluated on the order Knapsack::new computes. For a SECOND example, misp (dynamic variable order: the static-order solver theorem does not apply), the model's well-formedness is proved at component level (Misp.v, Props/C16m.v): "
+        "feasible decision sequences over ANY variable sequence = independent sets with the same weight, union merge covers and covering is a simulation, the positive-weights rough bound is admissible and monotone, long arcs are neutral, the dynamic order picks only undecided vertices and stops when all states are empty; "
+        "tied to the example's own source (compiled into the harness, instances through its own parser) by differential runs, plus library-vs-model-optimum runs. "
+        "For the other ten examples there is no Coq proof that their models are well formed: specification + differential test. "
         "Three defects were repaired (knapsack rough bound twice, misp rough bound), the others are recorded as known findings.",
    note=TB + "exdriver.ml contains independent parsers of the twelve input formats (trusted glue).",
    technique="independent Gallina enumeration specs (extracted) as oracle for the example binaries"),
